@@ -34,6 +34,30 @@ CLAIMED: dict[str, tuple[str, str, str, str, str]] = {
         "Trusted: TLC, the replay projection, CPython's selector transport calling pause_writing/resume_writing per its buffer limits. "
         "Bounds: 3 senders, <=5 environment notifications, <=2 cancellations; stream scenarios use 2 MB payloads over 64 KiB socket buffers.",
     ),
+    "C02": (
+        "model_checking",
+        "TLA+ spec SepScan (operational model of read_until / _buffered_readuntil / LimitOverrunError remainder) model-checked by TLC over all "
+        "byte strings x chunkings x both receive paths; executions of the real serializers+consumers recorded step by step and validated against "
+        "SepScanTrace by TLC (batch trace validation, every invariant evaluated in every state)",
+        "DESIGN.md section 3 (C02)",
+        "TLC decides, for every byte string over {payload, undecodable payload, separator bytes} up to 8-9 bytes, every chunking (reads <= 3) and "
+        "both receive paths, that outputs equal frame-by-frame decoding for streams safely within the limit, that every delivered packet is aligned, "
+        "that delivery resynchronises after a size rejection and that errors make progress; the real code is bound by trace validation of tens of "
+        "thousands of recorded executions (exhaustive small streams + threshold frame shapes) in which outcome and bytes held must match the model.",
+        "Trusted: TLC, the byte<->alphabet mapping of the harness, CommunityModules Json/IOUtils. Bounds: separator length 1-3, limits 5-9, "
+        "reads <= 3 bytes, streams <= 9 bytes (model) / <= ~40 bytes (traces).",
+    ),
+    "C07": (
+        "model_checking",
+        "TLA+ specs SepScan (invariants Bound, NoLimitOnSafe) and SizeGuard (file-based / raw-JSON guards) model-checked by TLC over all payload "
+        "lengths 0..limit+separator+read x all chunkings; real serializers' executions (bytes held observed after every step) validated by TLC "
+        "against SepScanTrace / SizeGuardTrace",
+        "DESIGN.md section 3 (C07)",
+        "Exhaustive within the constants for the design (TLC), trace validation for the code: for every payload length around the limit and "
+        "every chunking the number of bytes actually held by the real consumer must equal the model's, which TLC bounds by limit+read+separator; "
+        "frames safely under the limit are never rejected.",
+        "Trusted: TLC; 'safely under the limit' as defined in the evidence assumptions. Bounds: limits 4-64, reads <= 16.",
+    ),
 }
 
 NOT_YET = "check not built yet in this revision of /verif (planned: see DESIGN.md section 0); not claimed until its check exists"
